@@ -45,6 +45,10 @@ def main(argv=None):
     except Exception as e:
         tb = traceback.extract_tb(e.__traceback__)
         where = ' <- '.join('%s:%d' % (f.filename.split('/')[-1], f.lineno) for f in tb[-3:])
+        if not any('/geomdl/' in f.filename for f in tb):
+            out['error'] = 'harness exception in float replay: %s: %s at %s' % (type(e).__name__, str(e)[:200], where)
+            print(json.dumps(out))
+            return 3
         cx.failed.append(('no-exception', '%s: %s at %s' % (type(e).__name__, str(e)[:200], where)))
     out['checked'] = cx.checked
     out['failed'] = [[n, d] for n, d in cx.failed[:8]]
